@@ -224,6 +224,213 @@ func judge(dir string, c Case, exp expectation) (sig, msg string) {
 	return
 }
 
+// listAll lists the four folders through the API: folder -> MID -> serialised copies.
+func listAll(h *mailbox.DirHandler, only ...string) (got map[string]map[string][][]byte, badFolder string, err error) {
+	got = map[string]map[string][][]byte{}
+	which := folders
+	if len(only) > 0 {
+		which = only
+	}
+	for _, f := range which {
+		l, err := list(h, f)
+		if err != nil {
+			return nil, f, err
+		}
+		got[f] = map[string][][]byte{}
+		for _, m := range l {
+			raw, err := m.Bytes()
+			if err != nil {
+				return nil, f, fmt.Errorf("message %q: %v", m.MID(), err)
+			}
+			got[f][m.MID()] = append(got[f][m.MID()], raw)
+		}
+	}
+	return got, "", nil
+}
+
+// shorter returns a variant of m under the same MID whose file is strictly shorter (half the body, no
+// attachments), or m itself if there is nothing to cut.
+func shorter(m ref.Msg) ref.Msg {
+	v := m
+	v.Files = nil
+	if n := len(v.Body) / 2; n >= 1 {
+		v.Body = append([]byte{}, v.Body[:n]...)
+		if n >= 3 {
+			copy(v.Body[n-2:], "\r\n")
+		}
+	}
+	return v
+}
+
+// continueAfter models what a station does after the restart: it retries the interrupted operation
+// (the message is offered and received again, the user files the message again, the next session marks
+// the message sent, the user toggles the read flag) and keeps using the mailbox. Oracle: every step
+// succeeds, every folder still loads, the message of the operation is stored exactly as given, the
+// read flag is what was set last, and every message stored before the crash is still intact. For
+// inbound/outbound stores every second crash state retries with a *shorter* message under the same MID
+// (the mailbox must store whatever it is handed), so that left-overs of the interrupted write (temporary
+// files, partial data) cannot leak into a later, smaller write unnoticed.
+func continueAfter(dir string, c Case, exp expectation, nstate int) (sig, msg string) {
+	psig, pmsg := harness.Catch(func() {
+		fail := func(kind, format string, a ...any) {
+			if sig == "" {
+				sig, msg = "continue:"+kind+":"+c.Op, "after the crash state passed the recovery oracle the station went on: "+fmt.Sprintf(format, a...)
+			}
+		}
+		h := mailbox.NewDirHandler(dir, false)
+		if err := h.Prepare(); err != nil {
+			fail("prepare-fails", "Prepare: %v", err)
+			return
+		}
+		mid := c.opMID()
+		parse := func(raw []byte) *fbb.Message {
+			m := new(fbb.Message)
+			if err := m.ReadFrom(bytes.NewReader(raw)); err != nil {
+				panic(fmt.Sprintf("harness: generated message does not parse (validated before the run): %v", err))
+			}
+			return m
+		}
+		// verify(folder, want, flag): folder lists mid exactly once, equal to want modulo the private
+		// headers, with the given read flag (flag < 0: not checked); everything stored before is intact
+		full := true // the first and the last step list all four folders, the steps between only the touched ones
+		verify := func(step, folder string, want []byte, unread int, gone ...string) bool {
+			which := folders
+			if !full {
+				which = append([]string{folder}, gone...)
+			}
+			got, bad, err := listAll(h, which...)
+			if err != nil {
+				fail("folder-unloadable", "%s: folder %q does not load any more: %v", step, bad, err)
+				return false
+			}
+			copies := got[folder][mid]
+			if len(copies) != 1 {
+				fail("message-not-listed-once", "%s: message %s is listed %d times in %q (want once)", step, mid, len(copies), folder)
+				return false
+			}
+			if !bytes.Equal(ref.Public(copies[0]), ref.Public(want)) {
+				fail("message-differs", "%s: message %s in %q is not what was stored:\n got %q\nwant %q", step, mid, folder, clip(copies[0]), clip(want))
+				return false
+			}
+			if unread >= 0 {
+				flag := len(ref.HeaderValues(copies[0], "X-Unread")) > 0 && ref.HeaderValues(copies[0], "X-Unread")[0] == "true"
+				if flag != (unread == 1) {
+					fail("read-flag", "%s: message %s in %q has unread=%v, want %v", step, mid, folder, flag, unread == 1)
+					return false
+				}
+			}
+			for _, g := range gone {
+				if len(got[g][mid]) != 0 {
+					fail("message-still-listed", "%s: message %s is still listed in %q", step, mid, g)
+					return false
+				}
+			}
+			for _, f := range which {
+				for m, w := range exp.pre[f] {
+					if m == mid && (f == folder || contains(gone, f)) {
+						continue
+					}
+					cp := got[f][m]
+					if len(cp) != 1 || !bytes.Equal(noPath(cp[0]), noPath(w)) {
+						fail("stored-message-damaged", "%s: message %s stored in %q before the crash is now listed %d times / differs", step, m, f, len(cp))
+						return false
+					}
+				}
+			}
+			return true
+		}
+		toggle := func(folder string, want []byte, gone []string, seq ...bool) {
+			for i, u := range seq {
+				full = i == len(seq)-1
+				m, err := mailbox.OpenMessage(filepath.Join(dir, folder, mid+mailbox.Ext))
+				if err != nil {
+					fail("open-fails", "OpenMessage(%s/%s): %v", folder, mid, err)
+					return
+				}
+				if err := mailbox.SetUnread(m, u); err != nil {
+					fail("set-unread-fails", "SetUnread(%s, %v): %v", mid, u, err)
+					return
+				}
+				n := 0
+				if u {
+					n = 1
+				}
+				if !verify(fmt.Sprintf("SetUnread(%s,%v)", mid, u), folder, want, n, gone...) {
+					return
+				}
+			}
+		}
+		switch c.Op {
+		case "process_inbound", "add_out":
+			give := *c.Msg
+			variant := "the same message"
+			if nstate%2 == 1 {
+				give = shorter(give)
+				variant = "a shorter message with the same MID"
+			}
+			want := give.Bytes()
+			if c.Op == "add_out" {
+				if err := h.AddOut(parse(want)); err != nil {
+					fail("retry-fails", "AddOut of %s: %v", variant, err)
+					return
+				}
+				if !verify("AddOut of "+variant, "out", want, -1) {
+					return
+				}
+				toggle("out", want, nil, true, false)
+				return
+			}
+			p := fbb.NewProposal(mid, "title", fbb.Wl2kProposal, []byte("data"))
+			if h.GetInboundAnswer(*p) == fbb.Reject {
+				// a complete copy is in the inbox (the recovery oracle checked that): nothing is transferred again
+				want = c.Msg.Bytes()
+				variant = "nothing (already received)"
+			} else if err := h.ProcessInbound(parse(want)); err != nil {
+				fail("retry-fails", "ProcessInbound of %s: %v", variant, err)
+				return
+			}
+			if !verify("ProcessInbound of "+variant, "in", want, 1) {
+				return
+			}
+			if a := h.GetInboundAnswer(*p); a != fbb.Reject {
+				fail("not-deduplicated", "after the message was received a proposal for %s is answered %q", mid, byte(a))
+				return
+			}
+			toggle("in", want, nil, false, true, false)
+		case "set_sent":
+			want := exp.pre["out"][mid]
+			got, bad, err := listAll(h)
+			if err != nil {
+				fail("folder-unloadable", "folder %q: %v", bad, err)
+				return
+			}
+			if len(got["out"][mid]) == 1 {
+				h.SetSent(mid, false)
+			}
+			if !verify("SetSent("+mid+")", "sent", want, -1, "out") {
+				return
+			}
+			toggle("sent", want, []string{"out"}, true, false)
+		case "set_unread":
+			want := exp.pre[c.Folder][mid]
+			toggle(c.Folder, want, nil, !c.Unread, c.Unread, !c.Unread)
+		}
+	})
+	if psig != "" {
+		return "continue:" + psig, pmsg
+	}
+	return
+}
+
+func contains(l []string, s string) bool {
+	for _, x := range l {
+		if x == s {
+			return true
+		}
+	}
+	return false
+}
+
 func clip(b []byte) []byte {
 	if len(b) > 300 {
 		return append(append([]byte{}, b[:300]...), "..."...)
@@ -235,6 +442,7 @@ func clip(b []byte) []byte {
 
 type stats struct {
 	states, mid, inWrite int
+	continued            int // crash states on which the continuation phase (retry + follow-up operations) ran
 	events, mutating     int
 	bigWrites            int
 	writes               int
@@ -303,6 +511,14 @@ func run(c Case) (sig, msg string, st stats, herr error) {
 		}
 	}
 	exp := newExpectation(c)
+	if c.Msg != nil {
+		// the continuation phase hands these to the library again: they must be parseable messages
+		for _, v := range []ref.Msg{*c.Msg, shorter(*c.Msg)} {
+			if err := new(fbb.Message).ReadFrom(bytes.NewReader(v.Bytes())); err != nil {
+				return "", "", st, problem("generated message (or its shorter variant) does not parse: %v", err)
+			}
+		}
+	}
 
 	// pre-state: a copy to link unchanged files from, and the model the calls are replayed on
 	pool := filepath.Join(base, "pool")
@@ -316,6 +532,7 @@ func run(c Case) (sig, msg string, st stats, herr error) {
 		}
 	}
 	stateDir := filepath.Join(base, "state")
+	continuing, nstate := false, 0
 	check := func(s fstrace.Snapshot) (string, string, error) {
 		os.RemoveAll(stateDir)
 		if len(s.Dirs) == 0 { // not even the mailbox directory exists
@@ -326,6 +543,12 @@ func run(c Case) (sig, msg string, st stats, herr error) {
 			return "", "", problem("materialise crash state: %v", err)
 		}
 		sg, ms := judge(stateDir, c, exp)
+		if sg == "" && continuing {
+			// the station goes on working on the recovered mailbox (retry of the interrupted operation,
+			// read-flag rewrites): it must behave as if nothing had happened
+			nstate++
+			sg, ms = continueAfter(stateDir, c, exp, nstate)
+		}
 		return sg, ms, nil
 	}
 	if !c.Fresh {
@@ -393,8 +616,14 @@ func run(c Case) (sig, msg string, st stats, herr error) {
 	cj, _ := json.Marshal(c)
 	caseKey := harness.Hash(cj)
 	r := fstrace.NewReplayer(root, pre)
-	visit := func(s fstrace.Snapshot, idx, k int, what string) (string, string, error) {
+	visit := func(s fstrace.Snapshot, idx, k, wlen int, what string) (string, string, error) {
 		st.states++
+		// continuation phase: at every call boundary, in the last 8 bytes and every 4th of the last 40 bytes of every
+		// write (left-overs as long as possible) and at every 32nd (thorough: 4th) other state
+		continuing = k < 0 || wlen-k <= 8 || (wlen-k <= 40 && k%4 == 0) || st.states%harness.Scale(32, 4) == 0
+		if continuing {
+			st.continued++
+		}
 		// strictly between the first and the last tree-changing call: after any call but the last, or inside a write
 		between := k >= 0 || (idx >= first && idx < last)
 		if between {
@@ -432,7 +661,7 @@ func run(c Case) (sig, msg string, st stats, herr error) {
 				if err != nil {
 					return "", "", st, problem("replay: %v", err)
 				}
-				if sg, ms, err := visit(s, i, k, fmt.Sprintf("inside %s after %d of %d bytes", e, k, len(data))); err != nil || sg != "" {
+				if sg, ms, err := visit(s, i, k, len(data), fmt.Sprintf("inside %s after %d of %d bytes", e, k, len(data))); err != nil || sg != "" {
 					return sg, ms, st, err
 				}
 			}
@@ -440,7 +669,7 @@ func run(c Case) (sig, msg string, st stats, herr error) {
 		if err := r.Apply(e, -1); err != nil {
 			return "", "", st, problem("replay: %v", err)
 		}
-		if sg, ms, err := visit(r.FS.Snapshot(), i, -1, "right after "+e.String()); err != nil || sg != "" {
+		if sg, ms, err := visit(r.FS.Snapshot(), i, -1, 0, "right after "+e.String()); err != nil || sg != "" {
 			return sg, ms, st, err
 		}
 	}
@@ -601,6 +830,7 @@ func account(c Case, st stats) {
 	harness.Label("case", "case:"+c.Op)
 	harness.LabelN("states:"+c.Op, st.states)
 	harness.LabelN("mid_write", st.inWrite)
+	harness.LabelN("states-with-continuation-phase(retry+flag rewrites)", st.continued)
 	harness.LabelN("between_first_and_last_call", st.mid)
 	harness.LabelN("tree-changing calls", st.mutating)
 	if st.bigWrites > 0 {
